@@ -9,6 +9,13 @@ Three harness families over the real code under the deterministic scheduler:
      restart_on_command_exit on/off, debounce on/off, stop() after quiescence or by a stopper thread;
  (c) `ShellCommandTrick` with wait_for_process / drop_during_process, <= 3 events, simulated command durations.
 All oracles work on one totally ordered log of calls, returns, callback batches and process-table records.
+
+Fingerprints name the root cause where the log shows it: the debouncer's condition variable is wrapped by a
+logging proxy (is a notify() issued before the thread's first wait()?), `_restart_process` is bracketed by a
+logging subclass (did two restarts, or stop() and a restart, overlap?).  Symptoms seen in an execution with such an
+overlap share coarse fingerprints ("autorestart: stop() overlapping a restart in progress: ...", "autorestart:
+overlapping restarts: ..."); the same symptoms without any overlap keep precise fingerprints of their own, so a
+new defect that needs no overlap is never hidden behind a known one.
 """
 
 from __future__ import annotations
@@ -25,9 +32,12 @@ RULE = ("program = (family, configuration: event count and virtual gaps, child l
         "deviations (preemptions at line level in event_debouncer.py, process_watcher.py, tricks/__init__.py and at "
         "shared-access instruction level in EventDebouncer.run/handle_event/stop, AutoRestartTrick._restart_process/"
         "_stop_process/_start_process/stop/on_any_event, ShellCommandTrick.is_process_running; every simulated "
-        "Popen/poll/wait/kill is a scheduling point; (a): early timer expiry is a deviation; (b),(c): timers fire on "
-        "time and coinciding virtual instants are ordered by the scheduler, delay bounding); a case is distinct/"
-        "non-trivial by its observable outcome (batches, process-table history, liveness of helper threads)")
+        "Popen/poll/wait/kill is a scheduling point; (a): early timer expiry is a deviation, preemption bounding, "
+        "delay bounding for the 4-thread programs with a stopper thread; (b): timers fire on time, virtual gaps are "
+        "chosen so that events, stop(), watcher polls (0.1 s), debounce expiry (0.2 s) and kill_after polls coincide "
+        "and are ordered by the scheduler, delay bounding; (c): preemption bounding, once with timers on time and "
+        "once with early timer expiry as a deviation); a case is distinct/non-trivial by its observable outcome "
+        "(batches, process-table history, liveness of helper threads)")
 ASSUMPTIONS = [
     "child processes are simulated (wdmc.procsim): a signalled child that reacts dies at once; self-exit happens "
     "exactly at spawn time + lifetime on the virtual clock; a zombie accepts signals without effect, a reaped pid "
@@ -39,13 +49,19 @@ ASSUMPTIONS = [
     "self-exit when enabled) beyond the initial one; every event handed in before stop() is followed by a spawn "
     "(exactly one inside its own dispatch() call when neither a debouncer nor a watcher thread exists); after a "
     "self-exit with restart_on_command_exit a child runs again once 0.3 virtual s have passed (watcher period 0.1 s)",
-    "(b),(c) timers fire on time (no early-expiry deviations): relative timing is covered by the explicit virtual "
+    "(b) timers fire on time (no early-expiry deviations): relative timing is covered by the explicit virtual "
     "gaps, which are chosen to coincide with watcher polls, debounce expiry and kill_after polls",
     "(c) only non-overlap is demanded, plus: the number of commands never exceeds the number of events, with "
     "wait_for_process every event runs the command, and with drop_during_process an event arriving when no command "
-    "was ever started, or >= 0.25 virtual s after the last one ended (watcher period 0.1 s), runs the command",
+    "was ever started, or (timers-on-time variant only) >= 0.25 virtual s after the last one ended (watcher period "
+    "0.1 s), runs the command",
     "a helper thread that has been signalled to stop but has not yet run to its end when stop() returns is reported "
-    "under its own fingerprint (strict reading of 'all helper threads gone')",
+    "under its own fingerprint (strict reading of 'all helper threads gone'); a watcher of an earlier child is "
+    "labelled 'superseded ProcessWatcher'",
+    "(b) in an execution in which two children were alive at once, the state after stop() (orphan child, its watcher) "
+    "is a consequence and is not reported a second time",
+    "the debouncer's Condition is wrapped by a logging proxy and AutoRestartTrick._restart_process by a logging "
+    "subclass method (observation only; the library code objects are the ones executed and instrumented)",
 ]
 
 I = 1.0          # debounce interval of family (a)
@@ -671,15 +687,14 @@ def ar_harnesses(tier):
     modes = [("quiesce",), ("stopper", 0.0), ("stopper", 0.2), ("stopper", 0.4)]
     for roce, deb, life, ign, gaps, mode in itertools.product((True, False), (0, DEB), lifes, (False, True),
                                                               gapsets, modes):
-        core = (len(gaps) <= 1 and life in ((None,), (SHORT, None))
-                and (not ign or (mode[0] == "quiesce" or mode[1] == 0.2) and len(gaps) == 1 and gaps[0] == 0.2))
         if life == (SHORT, SHORT, None) and not roce:
             continue                     # without restart-on-exit a second short child adds nothing
         if not roce and life != (None,) and ign:
             continue
-        if quick and not core:
+        h = ARHarness(roce=roce, deb=deb, life=life, ign=ign, gaps=gaps, mode=mode)
+        if quick and not _core(h):
             continue
-        hs.append(ARHarness(roce=roce, deb=deb, life=life, ign=ign, gaps=gaps, mode=mode))
+        hs.append(h)
     # kill_after = 0: SIGKILL follows the stop signal at once
     for roce in (True, False):
         for mode in (("quiesce",), ("stopper", 0.2)):
@@ -839,12 +854,20 @@ def setup(tier):
     return hs, desc
 
 
+def _core(h):
+    """(b) programs of the quick tier (<= 1 event; the 'ignores the stop signal' variants only around t=0.2)."""
+    return (len(h.gaps) <= 1 and h.life in ((None,), (SHORT, None))
+            and (not h.ign or ((h.mode[0] == "quiesce" or h.mode[1] == 0.2) and h.gaps == (0.2,))))
+
+
 def _deep_quick(h):
-    """The few (b) programs that get deviation bound 2 already in the quick tier."""
-    return (isinstance(h, ARHarness) and not h.ign and h.ka == KA and (
-        (h.roce and not h.deb and h.life == (SHORT, None) and h.gaps == (0.2,) and h.mode == ("quiesce",))
-        or (not h.roce and h.deb and h.life == (None,) and h.gaps == (0.0,) and h.mode[0] == "quiesce")
-        or (not h.roce and not h.deb and h.life == (None,) and h.gaps == (0.0,) and h.mode == ("stopper", 0.0))))
+    """The (b) programs that get deviation bound 2 already in the quick tier."""
+    if h.ign or h.ka != KA or len(h.gaps) > 1:
+        return False
+    if not h.deb and h.mode == ("quiesce",):
+        return True
+    return ((not h.roce and h.deb and h.life == (None,) and h.gaps == (0.0,) and h.mode[0] == "quiesce")
+            or (not h.roce and not h.deb and h.life == (None,) and h.gaps == (0.0,) and h.mode == ("stopper", 0.0)))
 
 
 def run(ctx):
@@ -857,8 +880,8 @@ def run(ctx):
         elif isinstance(h, ARHarness):
             if quick:
                 b = 2 if _deep_quick(h) else 1
-            else:
-                b = 2 if len(h.gaps) <= 1 else 1
+            else:   # thorough: bound 2 for the <= 1-event programs (ignoring children: only the core ones)
+                b = 2 if len(h.gaps) <= 1 and (not h.ign or _core(h) or h.ka != KA) else 1
         else:
             b = 2 if quick else 3
         jobs.append((h, b))
